@@ -292,7 +292,7 @@ func reachWitness(from pt, keep edgeKeep, target func(ssa.Instruction) bool, avo
 			continue
 		}
 		for si, s := range it.b.Succs {
-			if !keep(it.b, si) {
+			if !keep(it.b, si) || edgeDead(it.b, si) {
 				continue
 			}
 			if !seen[s] {
@@ -417,7 +417,7 @@ func (w *World) consistentlyUnreachable(fn *ssa.Function, keep edgeKeep, target 
 			ifi, _ = b.Instrs[len(b.Instrs)-1].(*ssa.If)
 		}
 		for i, sb := range b.Succs {
-			if !keep(b, i) {
+			if !keep(b, i) || edgeDead(b, i) {
 				continue
 			}
 			next := asg
@@ -531,7 +531,7 @@ func countSites(from pt, keep edgeKeep, isSite func(ssa.Instruction) bool) (min,
 	succs := func(b node) []node {
 		var out []node
 		for i, s := range b.Succs {
-			if keep(b, i) {
+			if keep(b, i) && !edgeDead(b, i) {
 				out = append(out, s)
 			}
 		}
@@ -733,4 +733,109 @@ var indexFamily = map[string]bool{
 func (w *World) isIndexResult(v ssa.Value) bool {
 	c, ok := strip(v).(*ssa.Call)
 	return ok && indexFamily[w.calleeName(c)]
+}
+
+// ---- edges that can never be taken: defensive nil tests ----
+//
+// `if route == nil { return }` behind `route, err := m.GetRoute(); if err != nil { return }` adds a path to the graph that
+// no execution takes when GetRoute returns nil only together with an error. Rules that count what happens "on every
+// path" would report the defensive test as a second way out. An edge is dropped from every path query when the tested
+// value provably cannot have the value that edge stands for:
+//   - X == nil where X is a result of a package function that never returns nil there (nilStatus: never), or returns nil
+//     only together with an error and the test is reached only behind that call's err == nil;
+//   - X == nil where X was allocated in this function;
+//   - err != nil where err is a result that is the constant nil at every return of the package function called.
+
+var (
+	edgeWorld     *World
+	deadEdgeOf    = map[*ssa.BasicBlock]int{} // block -> 1 + index of the dead successor edge
+	deadEdgesDone = map[*ssa.Function]bool{}
+	deadEdgesBusy = false
+)
+
+func edgeDead(b *ssa.BasicBlock, i int) bool {
+	if edgeWorld == nil || deadEdgesBusy {
+		return false
+	}
+	fn := b.Parent()
+	if !deadEdgesDone[fn] {
+		deadEdgesDone[fn] = true
+		deadEdgesBusy = true
+		computeDeadEdges(edgeWorld, fn)
+		deadEdgesBusy = false
+	}
+	return deadEdgeOf[b] == i+1
+}
+
+func computeDeadEdges(w *World, fn *ssa.Function) {
+	if !w.isMain(fn) {
+		return
+	}
+	for _, b := range fn.Blocks {
+		if len(b.Instrs) == 0 {
+			continue
+		}
+		ifi, ok := b.Instrs[len(b.Instrs)-1].(*ssa.If)
+		if !ok {
+			continue
+		}
+		a := w.atom(ifi.Cond)
+		if a.Kind != "nil" || a.X == nil {
+			continue
+		}
+		nilEdge, nonNilEdge := 0, 1 // cond is "X == nil"
+		if a.Neg {
+			nilEdge, nonNilEdge = 1, 0
+		}
+		x := strip(a.X)
+		neverNil, alwaysNil := false, false
+		switch y := x.(type) {
+		case *ssa.Alloc, *ssa.MakeSlice, *ssa.MakeMap, *ssa.MakeClosure, *ssa.MakeChan:
+			neverNil = true
+		case *ssa.Extract:
+			if call, isCall := y.Tuple.(*ssa.Call); isCall {
+				if g := call.Call.StaticCallee(); g != nil && w.isMain(g) && g.Blocks != nil {
+					if types.TypeString(y.Type(), nil) == "error" {
+						alwaysNil = constNilAtEveryReturn(g, y.Index)
+					} else {
+						switch w.nilStatus(g, y.Index, map[string]bool{}) {
+						case nilNever:
+							neverNil = true
+						case nilOnlyWithError:
+							if errIndex(call) >= 0 && w.requires(fn, ifi, errNil(call), true) {
+								neverNil = true
+							}
+						}
+					}
+				}
+			}
+		case *ssa.Call:
+			if g := y.Call.StaticCallee(); g != nil && w.isMain(g) && g.Blocks != nil && g.Signature.Results().Len() == 1 {
+				if types.TypeString(y.Type(), nil) == "error" {
+					alwaysNil = constNilAtEveryReturn(g, 0)
+				} else if _, isPtr := y.Type().Underlying().(*types.Pointer); isPtr && w.nilStatus(g, 0, map[string]bool{}) == nilNever {
+					neverNil = true
+				}
+			}
+		}
+		if neverNil {
+			deadEdgeOf[b] = nilEdge + 1
+		} else if alwaysNil {
+			deadEdgeOf[b] = nonNilEdge + 1
+		}
+	}
+}
+
+func constNilAtEveryReturn(g *ssa.Function, idx int) bool {
+	n := 0
+	for _, r := range returnsUnder(g, nil) {
+		if idx >= len(r.Results) {
+			return false
+		}
+		n++
+		if !isNilConst(r.Results[idx]) {
+			return false
+		}
+	}
+	return n > 0
 }
